@@ -514,8 +514,7 @@ func (r *refShaper) applyAt(depth int, lk *Lookup, st *refState, a, tl int) int 
 				}
 				P := st.frames[fi]
 				if ac.Seq >= len(P) {
-					st.ok = false
-					continue
+					continue // no such input glyph: nothing to do
 				}
 				p := P[ac.Seq]
 				if ac.Lookup >= len(r.ll) {
